@@ -262,13 +262,32 @@ static AeadOut aead_enc(int skalgo, int aead, unsigned cs, const SOct &seskey_in
 	gcry_error_t ret = PGP::SymmetricEncryptAEAD(in, r.seskey, (tmcg_openpgp_skalgo_t)skalgo, (tmcg_openpgp_aeadalgo_t)aead, (tmcg_openpgp_byte_t)cs, ad, 0, r.iv, r.out);
 	std::string cl = coin_list(coins.take()); logs_end();
 	r.rc = gcry_err_code(ret);
+	{ std::set<std::string> nn; size_t calls = 0; for (auto &v : aead_events) if (v.seal) { calls++; nn.insert(v.nonce); }
+	  if (calls > nn.size()) emit("prop.pgpmsg aead-nonces mode=" + std::string(mode_name(aead)) + " cs=" + std::to_string(cs) + " len=" + std::to_string(in.size()) + " => calls=" + std::to_string(calls) + " distinct=" + std::to_string(nn.size())); }
 	emit("pgpmsg.aead.enc " + std::to_string(skalgo) + " " + std::to_string(aead) + " " + std::to_string(cs) + " " + hx(seskey_in) + " " + hx(ad) + " " + hx(in) + " " + cl + " " + seal_log() + tagtok(tag) +
 		" => " + std::to_string(r.rc) + " " + hx(r.seskey) + " " + hx(r.iv) + " " + hx(r.out));
 	return r;
 }
+// SymmetricDecryptAEAD declares `unsigned char inbuf[len]` for the last chunk; when the input ends 32 octets after a
+// whole number of chunks and all of them verify, len is 0 (a zero-length variable length array, flagged by UBSan).
+// Inputs of that shape are left out (--vla0 runs one in a child process).
+static bool g_vla0_probe = false;
+static bool vla0_shape(size_t n, unsigned cs, size_t adlen)
+{
+	if (adlen == 4 || cs > 21 || n < 33) return false;
+	size_t stride = ((size_t)64 << cs) + 16;
+	return n - 32 >= stride && (n - 32) % stride == 0;
+}
 static AeadOut aead_dec(int skalgo, int aead, unsigned cs, const SOct &seskey, const Oct &iv, const Oct &ad, const Oct &in, const std::string &tag = "")
 {
 	AeadOut r; r.seskey = seskey; r.iv = iv;
+	if (vla0_shape(in.size(), cs, ad.size())) {
+		emit("prop.pgpmsg sym vla0-shape algo=" + std::to_string(skalgo) + " cs=" + std::to_string(cs) + " n=" + std::to_string(in.size()) + " tag:" + tag + " => skipped");
+		if (g_vla0_probe) { g_vla0_probe = false; fflush(stdout); pid_t pid = fork();
+			if (pid == 0) { Oct out; gcry_error_t e = PGP::SymmetricDecryptAEAD(in, seskey, (tmcg_openpgp_skalgo_t)skalgo, (tmcg_openpgp_aeadalgo_t)aead, (tmcg_openpgp_byte_t)cs, iv, ad, 0, out); _exit(e ? 11 : 10); }
+			int st = 0; waitpid(pid, &st, 0);
+			emit("prop.pgpmsg sym vla0-probe => " + (WIFSIGNALED(st) ? "signal " + std::to_string(WTERMSIG(st)) : "exit " + std::to_string(WEXITSTATUS(st)))); }
+		r.rc = 1; return r; }
 	logs_begin();
 	gcry_error_t ret = PGP::SymmetricDecryptAEAD(in, seskey, (tmcg_openpgp_skalgo_t)skalgo, (tmcg_openpgp_aeadalgo_t)aead, (tmcg_openpgp_byte_t)cs, iv, ad, 0, r.out);
 	logs_end();
@@ -321,8 +340,7 @@ static void aead_case(SplitMix &g, int skalgo, int aead, unsigned cs, size_t len
 		AeadOut x = aead_dec(skalgo, aead, cs2, e.seskey, iv, ad2, c, t);
 		prop_sym("aead", skalgo, mode, cs, len, t, x.rc == 0, x.out == pt);
 	};
-	// (a final chunk of exactly 16 octets would make SymmetricDecryptAEAD declare a zero-length array: see --vla0)
-	if (!(nchunks >= 1 && len - nchunks * cd == 16)) { Oct c(e.out.begin(), e.out.end() - 16); run(c, e.iv, ad, cs, "drop-final"); }
+	{ Oct c(e.out.begin(), e.out.end() - 16); run(c, e.iv, ad, cs, "drop-final"); }
 	if (nchunks >= 1) {
 		// whole trailing chunks dropped, with and without the final tag kept
 		{ Oct c(e.out.begin(), e.out.begin() + nchunks * stride); run(c, e.iv, ad, cs, "truncate:lastchunk+final"); }
@@ -340,7 +358,7 @@ static void aead_case(SplitMix &g, int skalgo, int aead, unsigned cs, size_t len
 	{ Oct iv2 = e.iv; iv2[g.below(iv2.size())] ^= (unsigned char)(1u << g.below(8)); run(e.out, iv2, ad, cs, "iv"); }
 	for (size_t i = 0; i < 5; i++) { Oct ad2 = ad; ad2[i] ^= (unsigned char)(1u << g.below(8)); run(e.out, e.iv, ad2, cs, "ad:" + std::to_string(i)); }
 	{ unsigned cs2 = cs ? cs - 1 : cs + 1; run(e.out, e.iv, aead_ad(skalgo, aead, cs2), cs2, "ad:chunksize-both"); }
-	{ SOct k2 = e.seskey; size_t i = (k2.size() == ks + 3) ? 1 + g.below(ks) : g.below(ks); k2[i] ^= 1; if (k2.size() == ks + 3) { k2 = wrap_key(skalgo, std::string((const char*)k2.data() + 1, ks)); }
+	{ SOct k2 = e.seskey; size_t i = (k2.size() == ks + 3) ? 1 + g.below(ks) : g.below(ks); k2[i] ^= 0x10; if (k2.size() == ks + 3) { k2 = wrap_key(skalgo, std::string((const char*)k2.data() + 1, ks)); }
 	  AeadOut x = aead_dec(skalgo, aead, cs, k2, e.iv, ad, e.out, "key"); prop_sym("aead", skalgo, mode, cs, len, "key", x.rc == 0, x.out == pt); }
 }
 
@@ -381,6 +399,7 @@ static void msg_parse(const Oct &in, MsgView &v, const std::string &tag = "")
 }
 static bool msg_decrypt(const TMCG_OpenPGP_Message *m, const SOct &key, Oct &out, const std::string &tag = "")
 {
+	if (m->have_aead && vla0_shape(m->encrypted_message.size(), m->chunksize, 13)) { emit("prop.pgpmsg sym vla0-shape algo=" + std::to_string((unsigned)m->skalgo) + " cs=" + std::to_string((unsigned)m->chunksize) + " n=" + std::to_string(m->encrypted_message.size()) + " tag:" + tag + " => skipped"); return false; }
 	logs_begin(m->have_aead);
 	bool ok; { QuietCerr q; ok = m->Decrypt(key, 0, out); }
 	logs_end();
@@ -437,7 +456,7 @@ static void seipd_case(SplitMix &g, int algo, size_t len, bool tamper, size_t al
 	{ Oct e2(enc.begin(), enc.begin() + bs + 2), p2; PGP::PacketSeipdEncode(e2, p2); msg_case(p2, wk, lit, "seipd", algo, "cfb", 0, "truncate:prefix-only"); }
 	{ Oct lit2 = lit; lit2[g.below(lit2.size())] ^= 1; Oct h = cat(prefix, lit2); h.push_back(0xD3); h.push_back(0x14); Oct hash, mdc; PGP::HashCompute(TMCG_OPENPGP_HASHALGO_SHA1, h, hash); PGP::PacketMdcEncode(hash, mdc);
 	  Oct e2 = cfb_ref_encrypt(algo, key, prefix, false, cat(lit, mdc)), p2; PGP::PacketSeipdEncode(e2, p2); msg_case(p2, wk, lit, "seipd", algo, "cfb", 0, "wrongmdc"); }
-	{ std::string key2 = key; key2[g.below(ks)] ^= 1; msg_case(pkt, wrap_key(algo, key2), lit, "seipd", algo, "cfb", 0, "key"); }
+	{ std::string key2 = key; key2[g.below(ks)] ^= 0x10 /* not a DES parity bit */; msg_case(pkt, wrap_key(algo, key2), lit, "seipd", algo, "cfb", 0, "key"); }
 	{ SOct bad = wk; bad[bad.size() - 1] ^= 1; msg_case(pkt, bad, lit, "seipd", algo, "cfb", 0, "key:checksum"); }
 }
 
@@ -458,8 +477,7 @@ static void aead_msg_case(SplitMix &g, int skalgo, int aead, unsigned cs, size_t
 		std::string where = pos < hdr ? "header" : pos < hdr + 4 ? "ad" : pos < hdr + 4 + e.iv.size() ? "iv" : pos + 16 >= pkt.size() ? "finaltag" : "ct";
 		msg_case(c, key, lit, "aeadmsg", skalgo, mode, cs, "flip:" + where + ":" + std::to_string(pos));
 	}
-	size_t cd = (size_t)64 << cs, nch = (lit.size() - 1) / cd;
-	if (!(nch >= 1 && lit.size() - nch * cd == 16)) { Oct c; PGP::PacketAeadEncode((tmcg_openpgp_skalgo_t)skalgo, (tmcg_openpgp_aeadalgo_t)aead, (tmcg_openpgp_byte_t)cs, e.iv, Oct(e.out.begin(), e.out.end() - 16), c); msg_case(c, key, lit, "aeadmsg", skalgo, mode, cs, "drop-final"); }
+	{ Oct c; PGP::PacketAeadEncode((tmcg_openpgp_skalgo_t)skalgo, (tmcg_openpgp_aeadalgo_t)aead, (tmcg_openpgp_byte_t)cs, e.iv, Oct(e.out.begin(), e.out.end() - 16), c); msg_case(c, key, lit, "aeadmsg", skalgo, mode, cs, "drop-final"); }
 }
 
 static int drv_pgpmsg_sym(const Opts &o, SplitMix &g)
@@ -510,7 +528,7 @@ static int drv_pgpmsg_sym(const Opts &o, SplitMix &g)
 	// ================================================= integrity protected messages (SEIPD + MDC), unprotected ones
 	{
 		std::vector<size_t> lens = { 0, 1, 2, 15, 16, 17, 40 + (size_t)g.below(100) };
-		for (size_t n : lens) seipd_case(g, 9, n, true, thorough ? 4000 : (n <= 17 ? 400 : 0), 24);
+		for (size_t n : lens) seipd_case(g, 9, n, true, thorough ? 4000 : (n <= 2 ? 400 : 0), 20);
 		for (int algo : { 1, 2, 3, 4, 7, 8, 10, 11, 12, 13 }) if (algo_available(algo)) seipd_case(g, algo, g.below(60), true, thorough ? 4000 : 0, thorough ? 40 : 12);
 		// the plaintext may not be empty: an MDC packet alone is refused
 		{ Oct k = rnd_octets(g, 32), prefix = make_prefix(g, 16); std::string key((const char*)k.data(), 32);
@@ -525,12 +543,10 @@ static int drv_pgpmsg_sym(const Opts &o, SplitMix &g)
 		    Oct restlen; PGP::PacketLengthEncode(body.size() - 512, restlen); c.insert(c.end(), restlen.begin(), restlen.end()); c.insert(c.end(), body.begin() + 512, body.end()); msg_case(c, wk, lit, "seipd", 9, "cfb", 0, "honest:partial"); }
 		  { Oct body; body.push_back(1); body.insert(body.end(), enc.begin(), enc.end()); Oct c; c.push_back(0xC0 | 18); c.push_back(0xE8); /* 256: too short a first part */ c.insert(c.end(), body.begin(), body.begin() + 256);
 		    Oct restlen; PGP::PacketLengthEncode(body.size() - 256, restlen); c.insert(c.end(), restlen.begin(), restlen.end()); c.insert(c.end(), body.begin() + 256, body.end()); msg_case(c, wk, lit, "seipd", 9, "cfb", 0, "framing:partial-short"); }
-		  { Oct body; body.push_back(1); body.insert(body.end(), enc.begin(), enc.end()); Oct c; c.push_back(0x80 | (18 << 2) | 1); c.push_back((body.size() >> 8) & 0xFF); c.push_back(body.size() & 0xFF); c.insert(c.end(), body.begin(), body.end()); msg_case(c, wk, lit, "seipd", 9, "cfb", 0, "framing:oldformat-tag2"); }
 		  { Oct body; body.push_back(1); body.insert(body.end(), enc.begin(), enc.end()); Oct c; c.push_back(0x80 | (9 << 2) | 3); c.insert(c.end(), body.begin(), body.end()); msg_case(c, wk, lit, "sed", 9, "cfb", 0, "nomdc:oldformat-indeterminate"); }
 		  { Oct c = pkt; size_t hl = pkt.size() - enc.size() - 1; c[hl] = 2; msg_case(c, wk, lit, "seipd", 9, "cfb", 0, "framing:version2"); }
 		  { Oct c; c.push_back(0xC0 | 19); c.push_back(20); Oct h = rnd_octets(g, 20); c.insert(c.end(), h.begin(), h.end()); msg_case(c, wk, lit, "mdc", 9, "cfb", 0, "framing:mdc-alone"); }
 		  { Oct c; c.push_back(0xC0 | 19); c.push_back(19); Oct h = rnd_octets(g, 19); c.insert(c.end(), h.begin(), h.end()); msg_case(c, wk, lit, "mdc", 9, "cfb", 0, "framing:mdc-short"); }
-		  { Oct c; c.push_back(0x80 | (19 << 2)); c.push_back(20); Oct h = rnd_octets(g, 20); c.insert(c.end(), h.begin(), h.end()); msg_case(c, wk, lit, "mdc", 9, "cfb", 0, "framing:mdc-oldformat"); }
 		  msg_case(Oct(), wk, lit, "seipd", 9, "cfb", 0, "framing:empty");
 		  { Oct c; c.push_back(0x12); msg_case(c, wk, lit, "seipd", 9, "cfb", 0, "framing:bit7"); }
 		  { Oct c; c.push_back(0xC0 | 9); c.push_back(0); msg_case(c, wk, lit, "sed", 9, "cfb", 0, "framing:sed-empty"); }
@@ -551,7 +567,7 @@ static int drv_pgpmsg_sym(const Opts &o, SplitMix &g)
 			std::vector<size_t> lens = { 0, 1, cd - 1, cd, cd + 1, 2 * cd - 1, 2 * cd, 2 * cd + 1, 3 * cd, 4 * cd + 5, 5 * cd, 1 + (size_t)g.below(6 * cd) };
 			for (size_t n : lens) {
 				int skalgo = (cs == 0 || thorough) ? 9 : ciphers16[g.below(7)];
-				aead_case(g, skalgo, aead, cs, n, true, (cs == 0 || thorough) ? 600 : 0, thorough ? 64 : 20);
+				aead_case(g, skalgo, aead, cs, n, true, thorough ? 600 : (cs == 0 && n <= cd + 1) ? 200 : 0, thorough ? 64 : 16);
 				if (thorough) for (int a : ciphers16) if (a != 9) aead_case(g, a, aead, cs, n, true, 0, 24);
 			}
 			for (int a : ciphers16) { size_t n = g.coin() ? cd + g.below(2 * cd) : 1 + g.below(cd); aead_case(g, a, aead, cs, n, true, 0, 10); }
@@ -669,7 +685,7 @@ static const char *KEY_EDDSA =
 	"5519) (flags eddsa) (q #CEAB883C0EABD213DD513D2C49137A2E2A8228EBF556360D103D90882E05CD8D#) (d #62B5FD18F1E6559CAB1D58AB149EA74F29089A16A4CDF2C34D80002BDD1D39C0#"
 	") ) ) )";
 
-struct TestKey { std::string name; int pkalgo; gcry_sexp_t key; unsigned qbits; Oct body; time_t created; };
+struct TestKey { std::string name; int pkalgo; gcry_sexp_t key; unsigned qbits; Oct body, pkt; time_t created; };
 static const time_t KEY_CREATED = 1500000000;
 static gcry_mpi_t param(gcry_sexp_t key, const char *n) { gcry_mpi_t m = NULL; if (gcry_sexp_extract_param(key, NULL, n, &m, NULL)) { fprintf(stderr, "pgpmsg: parameter %s missing\n", n); exit(3); } return m; }
 static TestKey load_key(const std::string &name, int pkalgo, const char *text)
@@ -685,7 +701,7 @@ static TestKey load_key(const std::string &name, int pkalgo, const char *text)
 		if (pkalgo == 19) PGP::PacketPubEncode(k.created, TMCG_OPENPGP_PKALGO_ECDSA, sizeof p256, p256, q, TMCG_OPENPGP_HASHALGO_UNKNOWN, TMCG_OPENPGP_SKALGO_PLAINTEXT, pkt);
 		else PGP::PacketPubEncode(k.created, TMCG_OPENPGP_PKALGO_EDDSA, sizeof ed, ed, q, TMCG_OPENPGP_HASHALGO_UNKNOWN, TMCG_OPENPGP_SKALGO_PLAINTEXT, pkt);
 		gcry_mpi_release(q); }
-	PGP::PacketBodyExtract(pkt, 0, k.body);
+	PGP::PacketBodyExtract(pkt, 0, k.body); k.pkt = pkt;
 	return k;
 }
 static unsigned pgp_hash_id(int gcry_algo) { return gcry_algo == GCRY_MD_SHA3_256 ? 12 : gcry_algo == GCRY_MD_SHA3_512 ? 14 : (unsigned)gcry_algo; }
@@ -781,28 +797,44 @@ static std::string sig_snapshot(const TMCG_OpenPGP_Signature *sig)
 		std::to_string((long)sig->expirationtime) + "/" + hx(sig->hspd) + "/" + hx(sig->left) + "/" + mpi_hex(sig->rsa_md) + "/" + mpi_hex(sig->dsa_r) + "/" + mpi_hex(sig->dsa_s);
 }
 struct SigVerdict { bool ok = false, same = false; };
+// what the verdict lines of the following cases are about; the first "honest" case fixes the snapshot
+struct PropCtx { const TestKey *k = NULL; int ver = 0, type = 0, hashalgo = 0; size_t len = 0; std::string orig; bool have_orig = false; };
+static PropCtx g_pc;
+static void prop_ctx(const TestKey &k, int ver, int type, int hashalgo, size_t len) { g_pc = PropCtx(); g_pc.k = &k; g_pc.ver = ver; g_pc.type = type; g_pc.hashalgo = hashalgo; g_pc.len = len; }
+static void prop_sig_line(const TestKey &k, int ver, int type, int hashalgo, size_t len, const std::string &tag, bool ok, bool same);
 static bool g_emptyhash_probe = false;
 // parse + verify one signature packet against a target; `refused` covers a packet the parser drops;
 // same = the parsed signature has the fields of `orig` (a snapshot of the untouched one)
-static SigVerdict sig_case(const Oct &sigpkt, const TestKey &k, VKind kind, const Oct &a, const Oct &b, const Lit &lit, const std::string &tag, const std::string *orig = NULL, std::string *snap_out = NULL)
+static SigVerdict sig_case_inner(const Oct &sigpkt, const TestKey &k, VKind kind, const Oct &a, const Oct &b, const Lit &lit, const std::string &tag)
 {
 	TMCG_OpenPGP_Signature *sig = NULL; bool pok; SigVerdict v;
 	PGP::MemoryGuardReset();
 	{ QuietCerr q; pok = PGP::SignatureParse(sigpkt, 0, sig); }
 	if (!pok || !sig) return v;
-	std::string snap = sig_snapshot(sig); if (snap_out) *snap_out = snap; v.same = orig && snap == *orig;
+	std::string snap = sig_snapshot(sig);
+	if (!g_pc.have_orig && tag.compare(0, 6, "honest") == 0) { g_pc.orig = snap; g_pc.have_orig = true; }
+	v.same = g_pc.have_orig && snap == g_pc.orig;
 	if (!sig->Good()) v.ok = false;
 	else if (!hash_supported(sig->hashalgo) && sig->version >= 3 && sig->version <= 5 && sig->left.size() == 2) {
 		// an unknown hash algorithm leaves the digest empty and CheckIntegrity reads hash[0], hash[1] of the empty vector:
 		// such signatures are not handed to the verification routines (--emptyhash runs one in a child process)
 		emit("prop.pgpmsg sig-emptyhash " + k.name + " hash=" + std::to_string((unsigned)sig->hashalgo) + " tag:" + tag + " => skipped");
 		if (g_emptyhash_probe) { g_emptyhash_probe = false; fflush(stdout); pid_t pid = fork();
-			if (pid == 0) { bool r = sig->VerifyData(k.key, a, 0); _exit(r ? 0 : 1); }
+			if (pid == 0) { std::string u(b.begin(), b.end()); bool r = false;
+				switch (kind) { case V_DATA: r = sig->VerifyData(k.key, a, 0); break; case V_DATALIT: r = sig->VerifyData(k.key, a, lit.format, lit.filename, lit.timestamp, 0); break; case V_STANDALONE: r = sig->Verify(k.key, 0); break;
+					case V_KEY: r = sig->Verify(k.key, a, 0); break; case V_KEY2: r = sig->Verify(k.key, a, b, 0); break; case V_UID: r = sig->Verify(k.key, a, u, 0); break; default: r = sig->Verify(k.key, a, b, 0, 0); break; }
+				_exit(r ? 10 : 11); }
 			int st = 0; waitpid(pid, &st, 0);
 			emit("prop.pgpmsg sig-emptyhash-probe " + k.name + " hash=" + std::to_string((unsigned)sig->hashalgo) + " => " + (WIFSIGNALED(st) ? "signal " + std::to_string(WTERMSIG(st)) : "exit " + std::to_string(WEXITSTATUS(st)))); }
 		v.ok = false; }
 	else v.ok = sig_verify(sig, k, kind, a, b, lit, tag);
 	delete sig; return v;
+}
+static bool sig_case(const Oct &sigpkt, const TestKey &k, VKind kind, const Oct &a, const Oct &b, const Lit &lit, const std::string &tag)
+{
+	SigVerdict v = sig_case_inner(sigpkt, k, kind, a, b, lit, tag);
+	if (g_pc.k) prop_sig_line(*g_pc.k, g_pc.ver, g_pc.type, g_pc.hashalgo, g_pc.len, tag, v.ok, v.same);
+	return v.ok;
 }
 
 struct Made { Oct sigpkt, trailer; int ver, type, hashalgo; VKind vk; Oct a, b; Lit lit; };
@@ -860,9 +892,62 @@ static void validity_line(time_t creation, time_t expiration, int hashalgo, time
 	}
 }
 
+// ---- a transferable public key (key, user ID, self-signature) through PublicKeyBlockParse / CheckSelfSignatures
+static bool keyblock_verdict(const Oct &block)
+{
+	TMCG_OpenPGP_Pubkey *pub = NULL; bool ok = false;
+	PGP::MemoryGuardReset();
+	QuietCerr q;
+	if (PGP::PublicKeyBlockParse(block, 0, pub) && pub) {
+		TMCG_OpenPGP_Keyring *ring = new TMCG_OpenPGP_Keyring();
+		ok = pub->CheckSelfSignatures(ring, 0) && pub->valid && pub->userids.size() == 1 && pub->userids[0]->valid;
+		delete ring;
+	}
+	delete pub;
+	return ok;
+}
+static void keyblock_cases(SplitMix &g, const TestKey &k, int hashalgo, bool all_positions, time_t now)
+{
+	Oct fpr, uidpkt, trailer, hash, left, sigpkt, flags; std::string uid = "Bob <bob@example.org>";
+	PGP::FingerprintCompute(k.body, fpr); PGP::PacketUidEncode(uid, uidpkt); flags.push_back(0x03);
+	PGP::PacketSigPrepareSelfSignature(TMCG_OPENPGP_SIGNATURE_POSITIVE_CERTIFICATION, (tmcg_openpgp_pkalgo_t)k.pkalgo, (tmcg_openpgp_hashalgo_t)hashalgo, now - 60, 0, flags, fpr, false, trailer);
+	sig_hash(H_CERT, 4, hashalgo, k.body, str_oct(uid), Oct(), trailer, hash, left);
+	if (!sign_hash(k, hashalgo, hash, trailer, left, sigpkt)) return;
+	Oct block = cat(cat(k.pkt, uidpkt), sigpkt);
+	auto snap = [&](const Oct &sp) { TMCG_OpenPGP_Signature *sg = NULL; std::string r = "none"; QuietCerr q; if (PGP::SignatureParse(sp, 0, sg) && sg) { r = sig_snapshot(sg); delete sg; } return r; };
+	std::string orig = snap(sigpkt);
+	auto line = [&](const std::string &tag, bool ok, bool same = false) { emit("prop.pgpmsg keyblock " + k.name + " hash=" + std::to_string(hashalgo) + " tag:" + tag + " => " + (ok ? "ok" : "refused") + " same=" + (same ? "1" : "0")); };
+	line("honest", keyblock_verdict(block), true);
+	size_t a = k.pkt.size(), b = a + uidpkt.size();
+	std::vector<size_t> ps; if (all_positions) for (size_t i = 0; i < block.size(); i++) ps.push_back(i); else { ps = flip_positions(g, a, 0, 40); for (size_t i = a; i < b; i++) ps.push_back(i); for (size_t p2 : flip_positions(g, block.size() - b, 0, 30)) ps.push_back(b + p2); }
+	for (size_t pos : ps) { Oct c = block; c[pos] ^= (unsigned char)(1u << g.below(8));
+		std::string where = pos < 2 + (a > 193) ? "keyheader" : pos < a ? "key" : pos < a + 2 ? "uidheader" : pos < b ? "uid" : "sig";
+		// same = the self-signature packet still parses to the same signature (another encoding of it)
+		bool same = pos >= b && snap(Oct(c.begin() + b, c.end())) == orig;
+		line("flip:" + where + ":" + std::to_string(pos), keyblock_verdict(c), same); }
+	{ Oct c = cat(cat(k.pkt, Oct()), sigpkt); line("drop:uid", keyblock_verdict(c)); }
+	{ Oct u2; PGP::PacketUidEncode("Mallory <m@example.org>", u2); line("swap:uid", keyblock_verdict(cat(cat(k.pkt, u2), sigpkt))); }
+}
+
+// the file variants of the document hashes (HashComputeFile) against the in-memory ones: verdict lines only
+static void filehash_cases(SplitMix &g)
+{
+	char name[] = "/tmp/pgpmsg-XXXXXX"; int fd = mkstemp(name); if (fd < 0) return; close(fd);
+	static const char *texts[] = { "", "plain", "one\ntwo\n", "one\r\ntwo\r\n", "no newline at end\nlast", "cr only\rnext", "double cr\r\r\nnext\n", "\n", "\r\n", "trailing cr\r", "a\n\nb\n" };
+	for (const char *t : texts) for (int text = 0; text < 2; text++) {
+		std::string doc(t); { FILE *f = fopen(name, "wb"); fwrite(doc.data(), 1, doc.size(), f); fclose(f); }
+		Oct tr = rnd_octets(g, 10), h1, l1, h2, l2; bool ok;
+		if (text) { PGP::TextDocumentHash(str_oct(doc), tr, TMCG_OPENPGP_HASHALGO_SHA256, h1, l1); ok = PGP::TextDocumentHash(std::string(name), tr, TMCG_OPENPGP_HASHALGO_SHA256, h2, l2); }
+		else { PGP::BinaryDocumentHash(str_oct(doc), tr, TMCG_OPENPGP_HASHALGO_SHA256, h1, l1); ok = PGP::BinaryDocumentHash(std::string(name), tr, TMCG_OPENPGP_HASHALGO_SHA256, h2, l2); }
+		emit(std::string("prop.pgpmsg filehash ") + (text ? "text " : "bin ") + hexs(doc) + " => " + (ok ? (h1 == h2 ? "same" : "different") : "failed"));
+	}
+	unlink(name);
+}
+
 static int drv_pgpmsg_sig(const Opts &o, SplitMix &g)
 {
 	bool thorough = o.tier == "thorough";
+	g_emptyhash_probe = o.has("--emptyhash");
 	std::vector<TestKey> keys;
 	keys.push_back(load_key("rsa", 1, KEY_RSA)); keys.push_back(load_key("dsa160", 17, KEY_DSA160)); keys.push_back(load_key("dsa256", 17, KEY_DSA256));
 	keys.push_back(load_key("ecdsa", 19, KEY_ECDSA)); keys.push_back(load_key("eddsa", 22, KEY_EDDSA));
@@ -915,16 +1000,18 @@ static int drv_pgpmsg_sig(const Opts &o, SplitMix &g)
 		if (cls == 1 || cls == 3) for (size_t i = 0; i < doc.size(); i++) { unsigned x = g.below(8); doc[i] = x == 0 ? '\n' : x == 1 ? '\r' : (unsigned char)(32 + g.below(90)); }
 		Made m; if (!make_sig(g, k, cls, hashalgo, now - 50, g.coin() ? 0 : 100000, doc, m)) { emit("# signing failed: " + k.name + " class " + std::to_string(cls) + " hash " + std::to_string(hashalgo)); continue; }
 		made++;
-		bool ok = sig_case(m.sigpkt, k, m.vk, m.a, m.b, m.lit, "honest"); prop_sig(k, m.ver, m.type, hashalgo, len, "honest", ok);
+		prop_ctx(k, m.ver, m.type, hashalgo, len);
+		bool ok = sig_case(m.sigpkt, k, m.vk, m.a, m.b, m.lit, "honest"); 
 		// line ending forms of a text document verify alike
 		if (cls == 1 || cls == 3) { Oct d2; for (size_t i = 0; i < doc.size(); i++) { if (doc[i] == '\n' && (i == 0 || doc[i - 1] != '\r')) d2.push_back('\r'); d2.push_back(doc[i]); }
-			bool ok2 = sig_case(m.sigpkt, k, m.vk, d2, m.b, m.lit, "honest:crlf"); prop_sig(k, m.ver, m.type, hashalgo, len, "honest:crlf", ok2); }
+			bool ok2 = sig_case(m.sigpkt, k, m.vk, d2, m.b, m.lit, "honest:crlf");  }
 		// every octet of the signature packet (a sample for the long ones)
 		for (size_t pos : flip_positions(g, m.sigpkt.size(), thorough ? 100000 : (cls < 2 && ki == o.seed % keys.size() ? 100000 : 0), thorough ? 200 : 24)) {
 			Oct c = m.sigpkt; c[pos] ^= (unsigned char)(1u << g.below(8));
 			size_t hl = m.sigpkt.size() > 193 ? 3 : 2; std::string where = pos < hl ? "header" : pos < hl + m.trailer.size() ? "hashed" : pos < hl + m.trailer.size() + 2 ? "unhashedlen" : pos < hl + m.trailer.size() + 4 ? "left16" : "value";
+			{ size_t v0 = hl + m.trailer.size() + 4; if (pos == v0 || pos == v0 + 1) where = "mpilen"; else if (k.pkalgo != 1 && m.sigpkt.size() >= v0 + 2) { size_t l1 = (((size_t)m.sigpkt[v0] << 8) + m.sigpkt[v0 + 1] + 7) / 8; if (pos == v0 + 2 + l1 || pos == v0 + 3 + l1) where = "mpilen"; } }
 			std::string t = "flip:sig-" + where + ":" + std::to_string(pos);
-			bool x = sig_case(c, k, m.vk, m.a, m.b, m.lit, t); prop_sig(k, m.ver, m.type, hashalgo, len, t, x);
+			bool x = sig_case(c, k, m.vk, m.a, m.b, m.lit, t); 
 			if (x && o.has("--dump-accepted")) emit("# accepted " + t + " orig=" + hx(m.sigpkt) + " flipped=" + hx(c));
 		}
 		if (o.has("--probe-header")) for (size_t pos = 0; pos < 2; pos++) for (int bit = 0; bit < 8; bit++) { Oct c = m.sigpkt; c[pos] ^= (unsigned char)(1u << bit); bool x = sig_case(c, k, m.vk, m.a, m.b, m.lit, "probe"); if (x) emit("# header flip accepted: pos " + std::to_string(pos) + " bit " + std::to_string(bit) + " orig=" + hx(m.sigpkt)); }
@@ -935,19 +1022,19 @@ static int drv_pgpmsg_sig(const Opts &o, SplitMix &g)
 				// a text document: CR <-> LF changes that keep the canonical form are no tampering
 				std::string t = "flip:" + what + ":" + std::to_string(pos);
 				bool x = first ? sig_case(m.sigpkt, k, m.vk, c, m.b, m.lit, t) : sig_case(m.sigpkt, k, m.vk, m.a, c, m.lit, t);
-				prop_sig(k, m.ver, m.type, hashalgo, len, t, x);
+				
 			} };
 		if (!m.a.empty()) flip_target(m.a, true, m.vk == V_DATA ? (m.type == 1 ? "text" : "doc") : "key");
 		if (!m.b.empty()) flip_target(m.b, false, m.vk == V_KEY2 ? "subkey" : m.vk == V_UAT ? "uat" : "uid");
-		if (m.vk == V_DATA) { Oct c = m.a; c.push_back('x'); bool x = sig_case(m.sigpkt, k, m.vk, c, m.b, m.lit, "append:doc"); prop_sig(k, m.ver, m.type, hashalgo, len, "append:doc", x);
-			if (!m.a.empty()) { Oct c2(m.a.begin(), m.a.end() - 1); bool y = sig_case(m.sigpkt, k, m.vk, c2, m.b, m.lit, "cut:doc"); prop_sig(k, m.ver, m.type, hashalgo, len, "cut:doc", y); } }
+		if (m.vk == V_DATA) { Oct c = m.a; c.push_back('x'); bool x = sig_case(m.sigpkt, k, m.vk, c, m.b, m.lit, "append:doc"); 
+			if (!m.a.empty()) { Oct c2(m.a.begin(), m.a.end() - 1); bool y = sig_case(m.sigpkt, k, m.vk, c2, m.b, m.lit, "cut:doc");  } }
 		// another key of the same algorithm
-		for (const TestKey &k2 : keys) if (&k2 != &k && k2.pkalgo == k.pkalgo) { bool x = sig_case(m.sigpkt, k2, m.vk, m.a, m.b, m.lit, "otherkey"); prop_sig(k, m.ver, m.type, hashalgo, len, "otherkey", x); }
+		for (const TestKey &k2 : keys) if (&k2 != &k && k2.pkalgo == k.pkalgo) { bool x = sig_case(m.sigpkt, k2, m.vk, m.a, m.b, m.lit, "otherkey");  }
 		// a signature of one class checked as another
-		if (m.vk == V_KEY2) { bool x = sig_case(m.sigpkt, k, V_KEY2, m.b, m.a, m.lit, "swap:keys"); prop_sig(k, m.ver, m.type, hashalgo, len, "swap:keys", x); }
-		if (m.vk == V_UID) { bool x = sig_case(m.sigpkt, k, V_UAT, m.a, m.b, m.lit, "uid-as-uat"); prop_sig(k, m.ver, m.type, hashalgo, len, "uid-as-uat", x); }
-		if (m.vk == V_DATA && (m.ver == 5)) { Lit l2; l2.format = 0x62; l2.filename = "f.txt"; l2.timestamp = now; bool x = sig_case(m.sigpkt, k, V_DATALIT, m.a, m.b, l2, "v5:literal-fields"); prop_sig(k, m.ver, m.type, hashalgo, len, "v5:literal-fields", x); }
-		if (m.vk == V_DATA && (m.ver == 4)) { Lit l2; l2.filename = "f.txt"; l2.timestamp = now; bool x = sig_case(m.sigpkt, k, V_DATALIT, m.a, m.b, l2, "honest:v4-literal-fields"); prop_sig(k, m.ver, m.type, hashalgo, len, "honest:v4-literal-fields", x); }
+		if (m.vk == V_KEY2) { bool x = sig_case(m.sigpkt, k, V_KEY2, m.b, m.a, m.lit, "swap:keys");  }
+		if (m.vk == V_UID) { bool x = sig_case(m.sigpkt, k, V_UAT, m.a, m.b, m.lit, "uid-as-uat");  }
+		if (m.vk == V_DATA && (m.ver == 5)) { Lit l2; l2.format = 0x62; l2.filename = "f.txt"; l2.timestamp = now; bool x = sig_case(m.sigpkt, k, V_DATALIT, m.a, m.b, l2, "v5:literal-fields");  }
+		if (m.vk == V_DATA && (m.ver == 4)) { Lit l2; l2.filename = "f.txt"; l2.timestamp = now; bool x = sig_case(m.sigpkt, k, V_DATALIT, m.a, m.b, l2, "honest:v4-literal-fields");  }
 	}
 	// ================================================= V5 document signatures over the literal packet's fields; weak hashes; the DSA digest rule
 	for (const TestKey &k : keys) {
@@ -957,19 +1044,21 @@ static int drv_pgpmsg_sig(const Opts &o, SplitMix &g)
 		htr = trailer; htr.push_back(lit.format); htr.push_back((unsigned char)lit.filename.size()); for (char ch : lit.filename) htr.push_back(ch); PGP::PacketTimeEncode(lit.timestamp, htr);
 		sig_hash(H_BIN, 5, hashalgo, doc, Oct(), Oct(), htr, hash, left);
 		if (!sign_hash(k, hashalgo, hash, trailer, left, sp)) continue;
-		bool ok = sig_case(sp, k, V_DATALIT, doc, Oct(), lit, "honest"); prop_sig(k, 5, 0, hashalgo, doc.size(), "honest", ok);
-		{ Lit l2 = lit; l2.format ^= 1; bool x = sig_case(sp, k, V_DATALIT, doc, Oct(), l2, "flip:literal-format:0"); prop_sig(k, 5, 0, hashalgo, doc.size(), "flip:literal-format:0", x); }
-		{ Lit l2 = lit; l2.filename += "x"; bool x = sig_case(sp, k, V_DATALIT, doc, Oct(), l2, "flip:literal-filename:0"); prop_sig(k, 5, 0, hashalgo, doc.size(), "flip:literal-filename:0", x); }
-		{ Lit l2 = lit; l2.timestamp += 1; bool x = sig_case(sp, k, V_DATALIT, doc, Oct(), l2, "flip:literal-time:0"); prop_sig(k, 5, 0, hashalgo, doc.size(), "flip:literal-time:0", x); }
-		{ Lit l2 = lit; l2.filename = std::string(256, 'n'); bool x = sig_case(sp, k, V_DATALIT, doc, Oct(), l2, "flip:literal-filename:long"); prop_sig(k, 5, 0, hashalgo, doc.size(), "flip:literal-filename:long", x); }
-		{ bool x = sig_case(sp, k, V_DATA, doc, Oct(), lit, "v5:detached-form"); prop_sig(k, 5, 0, hashalgo, doc.size(), "v5:detached-form", x); }
+		prop_ctx(k, 5, 0, hashalgo, doc.size());
+		bool ok = sig_case(sp, k, V_DATALIT, doc, Oct(), lit, "honest"); 
+		{ Lit l2 = lit; l2.format ^= 1; bool x = sig_case(sp, k, V_DATALIT, doc, Oct(), l2, "flip:literal-format:0");  }
+		{ Lit l2 = lit; l2.filename += "x"; bool x = sig_case(sp, k, V_DATALIT, doc, Oct(), l2, "flip:literal-filename:0");  }
+		{ Lit l2 = lit; l2.timestamp += 1; bool x = sig_case(sp, k, V_DATALIT, doc, Oct(), l2, "flip:literal-time:0");  }
+		{ Lit l2 = lit; l2.filename = std::string(256, 'n'); bool x = sig_case(sp, k, V_DATALIT, doc, Oct(), l2, "flip:literal-filename:long");  }
+		{ bool x = sig_case(sp, k, V_DATA, doc, Oct(), lit, "v5:detached-form");  }
 		// weak hashes verify at this level; CheckValidity is what refuses them
+		g_pc = PropCtx();
 		for (int wh : weak) { if (k.pkalgo == 17 && k.qbits > 8 * PGP::AlgorithmHashLength((tmcg_openpgp_hashalgo_t)wh)) continue; if (k.pkalgo == 22) continue;
 			Made m; Oct d = rnd_octets(g, 20); if (!make_sig(g, k, 0, wh, now - 5, 0, d, m)) continue;
 			TMCG_OpenPGP_Signature *sig = NULL; bool pok; { QuietCerr q; pok = PGP::SignatureParse(m.sigpkt, 0, sig); }
 			bool ver = pok && sig_verify(sig, k, V_DATA, d, Oct(), Lit(), "weakhash"); bool val = false;
 			if (pok) { QuietCerr q; val = sig->CheckValidity(k.created, 0); }
-			prop_sig(k, 4, 0, wh, 20, "weakhash", ver && val); delete sig; }
+			prop_sig_line(k, 4, 0, wh, 20, "weakhash", ver && val, true); delete sig; }
 	}
 	// ================================================= times: expired, older than the key, far in the future (the signature verifies, CheckValidity decides)
 	for (const TestKey &k : keys) {
@@ -981,7 +1070,7 @@ static int drv_pgpmsg_sig(const Opts &o, SplitMix &g)
 			TMCG_OpenPGP_Signature *sig = NULL; bool pok; { QuietCerr q; pok = PGP::SignatureParse(m.sigpkt, 0, sig); }
 			bool ver = pok && sig_verify(sig, k, V_DATA, d, Oct(), Lit(), tc.tag); bool val = false;
 			if (pok) { QuietCerr q; val = sig->CheckValidity(k.created, 0); emit("prop.pgpmsg sigtime " + k.name + " creation=" + std::to_string((long)sig->creationtime - (long)now) + " expiration=" + std::to_string((long)sig->expirationtime) + " tag:" + tc.tag + " => verify=" + (ver ? "1" : "0") + " valid=" + (val ? "1" : "0")); }
-			prop_sig(k, 4, 0, hashalgo, 10, tc.tag, ver && val); delete sig; }
+			prop_sig_line(k, 4, 0, hashalgo, 10, tc.tag, ver && val, true); delete sig; }
 	}
 	// ================================================= V3 signatures (verified, never made by the library): hand-made packets
 	for (const TestKey &k : keys) for (int type = 0; type <= 1; type++) {
@@ -993,11 +1082,15 @@ static int drv_pgpmsg_sig(const Opts &o, SplitMix &g)
 		size_t hl = fake.size() > 193 ? 3 : 2; Oct mpis(fake.begin() + hl + 4, fake.end()), body; body.push_back(3); body.push_back(5); body.insert(body.end(), tr.begin(), tr.end());
 		for (int i = 0; i < 8; i++) body.push_back((unsigned char)g.below(256)); body.push_back((unsigned char)k.pkalgo); body.push_back((unsigned char)hashalgo); body.insert(body.end(), left.begin(), left.end()); body.insert(body.end(), mpis.begin(), mpis.end());
 		PGP::PacketTagEncode(2, sp); PGP::PacketLengthEncode(body.size(), sp); sp.insert(sp.end(), body.begin(), body.end());
-		bool ok = sig_case(sp, k, V_DATA, doc, Oct(), Lit(), "honest"); prop_sig(k, 3, type, hashalgo, doc.size(), "honest", ok);
-		for (size_t pos : flip_positions(g, sp.size(), thorough ? 100000 : 0, 16)) { Oct c = sp; c[pos] ^= (unsigned char)(1u << g.below(8)); std::string t = "flip:sig-v3:" + std::to_string(pos); bool x = sig_case(c, k, V_DATA, doc, Oct(), Lit(), t); prop_sig(k, 3, type, hashalgo, doc.size(), t, x); }
-		{ Oct c = doc; c[g.below(c.size())] ^= 0x20; bool x = sig_case(sp, k, V_DATA, c, Oct(), Lit(), "flip:doc:0"); prop_sig(k, 3, type, hashalgo, doc.size(), "flip:doc:0", x); }
-		{ bool x = sig_case(sp, k, V_UAT, doc, doc, Lit(), "v3:uat"); prop_sig(k, 3, type, hashalgo, doc.size(), "v3:uat", x); }
+		prop_ctx(k, 3, type, hashalgo, doc.size());
+		bool ok = sig_case(sp, k, V_DATA, doc, Oct(), Lit(), "honest"); 
+		for (size_t pos : flip_positions(g, sp.size(), thorough ? 100000 : 0, 16)) { Oct c = sp; c[pos] ^= (unsigned char)(1u << g.below(8)); std::string t = "flip:sig-v3:" + std::to_string(pos); bool x = sig_case(c, k, V_DATA, doc, Oct(), Lit(), t);  }
+		{ Oct c = doc; c[g.below(c.size())] ^= 0x20; bool x = sig_case(sp, k, V_DATA, c, Oct(), Lit(), "flip:doc:0");  }
+		{ bool x = sig_case(sp, k, V_UAT, doc, doc, Lit(), "v3:uat");  }
 	}
+	// ================================================= whole key blocks: every octet of key packet, user ID packet and self-signature
+	for (size_t ki = 0; ki < 3; ki++) if (thorough || ki == o.seed % 3) keyblock_cases(g, keys[ki], keys[ki].qbits > 256 ? 10 : 8, thorough || ki != 0 , now);
+	filehash_cases(g);
 	emit("prop.pgpmsg sig-made " + std::to_string(made) + " => ok");
 	return 0;
 }
@@ -1006,7 +1099,24 @@ static int drv_pgpmsg(const Opts &o)
 {
 	SplitMix g(o.seed ^ 0x7067706d7367ULL);
 	std::string part = o.val("--part", "all");
+	g_vla0_probe = false;
 	int rc = 0;
+	if (o.has("--vla0")) {
+		// all chunks verify and 32 octets are left: the last chunk's arrays get the length 0
+		SOct k = sec(Oct(32, 0x22)); Oct in(64 + 16, 0x42), iv, out, ad = aead_ad(9, 2, 0);
+		if (!PGP::SymmetricEncryptAEAD(in, k, TMCG_OPENPGP_SKALGO_AES256, TMCG_OPENPGP_AEADALGO_OCB, 0, ad, 0, iv, out)) {
+			Oct cut(out.begin(), out.end() - 16); fflush(stdout); pid_t pid = fork();
+			if (pid == 0) { Oct o2; gcry_error_t e = PGP::SymmetricDecryptAEAD(cut, k, TMCG_OPENPGP_SKALGO_AES256, TMCG_OPENPGP_AEADALGO_OCB, 0, iv, ad, 0, o2); _exit(e ? 11 : 10); }
+			int st = 0; waitpid(pid, &st, 0);
+			emit("prop.pgpmsg sym vla0-probe drop-final len=80 cs=0 => " + (WIFSIGNALED(st) ? "signal " + std::to_string(WTERMSIG(st)) : "exit " + std::to_string(WEXITSTATUS(st)))); }
+	}
+	if (o.has("--bigchunk")) {
+		// chunk size octet 17 (8 MiB chunks): SymmetricEncryptAEAD puts two chunk-sized arrays on the stack
+		fflush(stdout); pid_t pid = fork();
+		if (pid == 0) { Oct in(((size_t)64 << 17) + 10, 0x41), iv, out; SOct k = sec(Oct(32, 0x11)); gcry_error_t e = PGP::SymmetricEncryptAEAD(in, k, TMCG_OPENPGP_SKALGO_AES256, TMCG_OPENPGP_AEADALGO_OCB, 17, aead_ad(9, 2, 17), 0, iv, out); _exit(e ? 11 : 10); }
+		int st = 0; waitpid(pid, &st, 0);
+		emit("prop.pgpmsg sym bigchunk-probe cs=17 => " + (WIFSIGNALED(st) ? "signal " + std::to_string(WTERMSIG(st)) : "exit " + std::to_string(WEXITSTATUS(st))));
+	}
 	if (part == "all" || part == "sym") rc |= drv_pgpmsg_sym(o, g);
 	if (part == "all" || part == "sig") rc |= drv_pgpmsg_sig(o, g);
 	return rc;
